@@ -217,6 +217,9 @@ def gen_nodes(rng, n_iri=4, n_bn=1, n_lit=2):
     if lits and rng.random() < 0.3:
         # a plain string whose lexical form spells a node of the same graph (IRI or blank node label): a distinct term
         lits[-1] = Literal(str(rng.choice(nodes)))
+    if lits and rng.random() < 0.3:
+        # and terms that differ only in datatype or language: "0" next to 0, "0"@en next to "0"
+        lits = lits + [rng.choice([Literal("0"), Literal("0", lang="en"), Literal("1")])]
     return nodes, lits
 
 
